@@ -4,6 +4,7 @@ Table of contents support for mistletoe.
 See `if __name__ == '__main__'` section for sample usage.
 """
 
+import html
 import re
 from mistletoe.html_renderer import HtmlRenderer
 from mistletoe import block_token
@@ -44,6 +45,9 @@ class TocRenderer(HtmlRenderer):
 
         def build_list_item(heading):
             level, content = heading
+            # the entry is re-read as Markdown: escape whatever could be taken for markup,
+            # so that it stands for exactly the heading's text
+            content = re.sub(r'([!-/:-@\[-`{-~])', r'\\\1', content)
             template = '{indent}- {content}\n'
             return template.format(indent=get_indent(level), content=content)
 
@@ -69,7 +73,7 @@ class TocRenderer(HtmlRenderer):
         """
         Helper method; converts rendered heading to plain text.
         """
-        return re.sub(r'<.+?>', '', rendered)
+        return html.unescape(re.sub(r'<.+?>', '', rendered))
 
 
 TOCRenderer = TocRenderer
